@@ -676,3 +676,610 @@ pub proof fn lemma_nz_uniq_compose(ks: Seq<Tid>, subs0: Map<Tid, Term<Sub>>, mid
         assert(nz_resfx_blks(subs0[k].term.blocks@ + add, subs1[k].term.blocks@, subs0[k].tid, home));
     }
 }
+
+// ---- composition ---------------------------------------------------------------------------------------------------------------------
+
+/// the duplicate removal yields a sub-program
+pub proof fn lemma_nz_dedup_sub_program(prog: Tid, subs0: Map<Tid, Term<Sub>>, subs1: Map<Tid, Term<Sub>>)
+    requires
+        nz_dedup_post(subs0, subs1),
+    ensures
+        nz_sub_program(prog, subs0, subs1),
+{
+    assert forall |k: Tid| #[trigger] subs1.contains_key(k) implies subs1[k].tid == subs0[k].tid by {
+        assert(subs0.contains_key(k));
+        assert(nz_dedup_sub(subs0[k], subs1[k]));
+    }
+    assert forall |p: NzPos| #[trigger] nz_pos_ok(subs1, p) implies exists |q: NzPos| #[trigger] nz_pos_ok(subs0, q) && nz_tid_at(prog, subs0, q) == nz_tid_at(prog, subs1, p) by {
+        match p {
+            NzPos::Prog => { assert(nz_pos_ok(subs0, NzPos::Prog)); },
+            NzPos::Sub(k) => {
+                assert(subs0.contains_key(k)); assert(nz_dedup_sub(subs0[k], subs1[k]));
+                assert(nz_pos_ok(subs0, NzPos::Sub(k)));
+            },
+            NzPos::Blk(k, i) => {
+                assert(subs0.contains_key(k)); assert(nz_dedup_sub(subs0[k], subs1[k]));
+                let emb = choose |emb: Seq<int>| #[trigger] nz_dedup_blks(subs0[k].term.blocks@, subs1[k].term.blocks@, emb);
+                assert(nz_dedup_blk(subs0[k].term.blocks@[emb[i]], subs1[k].term.blocks@[i]));
+                assert(nz_pos_ok(subs0, NzPos::Blk(k, emb[i])));
+            },
+            NzPos::Def(k, i, d) => {
+                assert(subs0.contains_key(k)); assert(nz_dedup_sub(subs0[k], subs1[k]));
+                let emb = choose |emb: Seq<int>| #[trigger] nz_dedup_blks(subs0[k].term.blocks@, subs1[k].term.blocks@, emb);
+                let b0 = subs0[k].term.blocks@[emb[i]];
+                let b1 = subs1[k].term.blocks@[i];
+                assert(nz_dedup_blk(b0, b1));
+                let demb = choose |demb: Seq<int>| #[trigger] nz_sel(b1.term.defs@, b0.term.defs@, demb);
+                assert(b1.term.defs@[d] == b0.term.defs@[demb[d]]);
+                assert(nz_pos_ok(subs0, NzPos::Def(k, emb[i], demb[d])));
+            },
+            NzPos::Jmp(k, i, d) => {
+                assert(subs0.contains_key(k)); assert(nz_dedup_sub(subs0[k], subs1[k]));
+                let emb = choose |emb: Seq<int>| #[trigger] nz_dedup_blks(subs0[k].term.blocks@, subs1[k].term.blocks@, emb);
+                let b0 = subs0[k].term.blocks@[emb[i]];
+                let b1 = subs1[k].term.blocks@[i];
+                assert(nz_dedup_blk(b0, b1));
+                let jemb = choose |jemb: Seq<int>| #[trigger] nz_sel(b1.term.jmps@, b0.term.jmps@, jemb);
+                assert(b1.term.jmps@[d] == b0.term.jmps@[jemb[d]]);
+                assert(nz_pos_ok(subs0, NzPos::Jmp(k, emb[i], jemb[d])));
+            },
+        }
+    }
+    assert forall |k: Tid, i: int, u: Tid| #[trigger] nz_blk_at(subs1, k, i, subs1[k].term.blocks@[i].tid) && #[trigger] nz_names(subs1[k].term.blocks@[i], u)
+        implies exists |k0: Tid, i0: int| #[trigger] nz_blk_at(subs0, k0, i0, subs0[k0].term.blocks@[i0].tid) && nz_names(subs0[k0].term.blocks@[i0], u) by {
+        assert(subs0.contains_key(k)); assert(nz_dedup_sub(subs0[k], subs1[k]));
+        let emb = choose |emb: Seq<int>| #[trigger] nz_dedup_blks(subs0[k].term.blocks@, subs1[k].term.blocks@, emb);
+        let b0 = subs0[k].term.blocks@[emb[i]];
+        let b1 = subs1[k].term.blocks@[i];
+        assert(nz_dedup_blk(b0, b1));
+        if exists |j: int| 0 <= j < b1.term.jmps@.len() && nz_intra_target((#[trigger] b1.term.jmps@[j]).term) == Some(u) {
+            let j = choose |j: int| 0 <= j < b1.term.jmps@.len() && nz_intra_target((#[trigger] b1.term.jmps@[j]).term) == Some(u);
+            let jemb = choose |jemb: Seq<int>| #[trigger] nz_sel(b1.term.jmps@, b0.term.jmps@, jemb);
+            assert(b1.term.jmps@[j] == b0.term.jmps@[jemb[j]]);
+        } else {
+            let h = choose |h: int| 0 <= h < b1.term.indirect_jmp_targets@.len() && #[trigger] b1.term.indirect_jmp_targets@[h] == u;
+            assert(b0.term.indirect_jmp_targets@[h] == u);
+        }
+        assert(nz_names(b0, u));
+        assert(nz_blk_at(subs0, k, emb[i], subs0[k].term.blocks@[emb[i]].tid));
+    }
+}
+
+/// hypotheses on names carry over to a sub-program
+pub proof fn lemma_nz_sub_program_hyp(prog: Tid, subs0: Map<Tid, Term<Sub>>, subs1: Map<Tid, Term<Sub>>, ext: Map<Tid, ExternSymbol>)
+    requires
+        nz_sub_program(prog, subs0, subs1),
+    ensures
+        nz_no_sink_names(prog, subs0) ==> nz_no_sink_names(prog, subs1),
+        nz_namespace(subs0, ext) ==> nz_namespace(subs1, ext),
+        nz_keys_are_tids(subs0) ==> nz_keys_are_tids(subs1),
+{
+    if nz_no_sink_names(prog, subs0) {
+        assert forall |p: NzPos| #[trigger] nz_pos_ok(subs1, p) implies nz_tid_at(prog, subs1, p) != nz_sink_sub() && nz_tid_at(prog, subs1, p) != nz_sink_blk(Seq::<char>::empty()) by {
+            let q = choose |q: NzPos| #[trigger] nz_pos_ok(subs0, q) && nz_tid_at(prog, subs0, q) == nz_tid_at(prog, subs1, p);
+        }
+    }
+    if nz_namespace(subs0, ext) {
+        assert forall |k: Tid, i: int, u: Tid| #[trigger] nz_blk_at(subs1, k, i, subs1[k].term.blocks@[i].tid) && #[trigger] nz_names(subs1[k].term.blocks@[i], u)
+            implies !nz_is_sub(subs1, u) && !ext.contains_key(u) && u != nz_sink_sub() by {
+            let (k0, i0) = choose |k0: Tid, i0: int| #[trigger] nz_blk_at(subs0, k0, i0, subs0[k0].term.blocks@[i0].tid) && nz_names(subs0[k0].term.blocks@[i0], u);
+            if nz_is_sub(subs1, u) {
+                let k2 = choose |k2: Tid| #[trigger] subs1.contains_key(k2) && subs1[k2].tid == u;
+                assert(subs0.contains_key(k2) && subs0[k2].tid == u);
+                assert(nz_is_sub(subs0, u));
+            }
+        }
+    }
+    if nz_keys_are_tids(subs0) {
+        assert forall |k: Tid| #[trigger] subs1.contains_key(k) implies subs1[k].tid == k by {
+            assert(subs0.contains_key(k));
+        }
+    }
+}
+
+/// adding the artificial sink function keeps the tids unique (its two names are used by no term) and the name spaces apart
+pub proof fn lemma_nz_sink_added_unique(prog: Tid, subs1: Map<Tid, Term<Sub>>, subs2: Map<Tid, Term<Sub>>, ext: Map<Tid, ExternSymbol>)
+    requires
+        nz_unique(prog, subs1),
+        nz_sink_added(subs1, subs2),
+        nz_no_sink_names(prog, subs1),
+        nz_keys_are_tids(subs1),
+    ensures
+        nz_unique(prog, subs2),
+        nz_keys_are_tids(subs2),
+        nz_namespace(subs1, ext) ==> nz_namespace(subs2, ext),
+{
+    axiom_nz_sink_names_differ();
+    let sk = nz_sink_sub();
+    assert(!subs1.contains_key(sk)) by {
+        if subs1.contains_key(sk) {
+            assert(nz_pos_ok(subs1, NzPos::Sub(sk)));
+            assert(nz_tid_at(prog, subs1, NzPos::Sub(sk)) == sk);
+        }
+    }
+    assert(nz_pos_ok(subs1, NzPos::Prog));
+    // a position of subs2 outside the sink function is a position of subs1 with the same tid
+    assert forall |p: NzPos| #[trigger] nz_pos_ok(subs2, p) && !(p is Prog) && nz_pos_key(p) != sk implies nz_pos_ok(subs1, p) && nz_tid_at(prog, subs1, p) == nz_tid_at(prog, subs2, p) by {
+        let k = nz_pos_key(p);
+        assert(subs2.contains_key(k));
+        assert(subs1.contains_key(k));
+        assert(subs2[k] == subs1[k]);
+    }
+    assert forall |p: NzPos, q: NzPos| #[trigger] nz_pos_ok(subs2, p) && #[trigger] nz_pos_ok(subs2, q) && nz_tid_at(prog, subs2, p) == nz_tid_at(prog, subs2, q) implies p == q by {
+        let sink_p = !(p is Prog) && nz_pos_key(p) == sk;
+        let sink_q = !(q is Prog) && nz_pos_key(q) == sk;
+        if sink_p && sink_q {
+            // Sub(sk) or Blk(sk, 0): different names
+        } else if sink_p || sink_q {
+            // one tid is a sink name, the other is a tid of subs1 (or the program tid)
+            if sink_p {
+                if !(q is Prog) { assert(nz_pos_ok(subs1, q)); }
+            } else {
+                if !(p is Prog) { assert(nz_pos_ok(subs1, p)); }
+            }
+        } else {
+            if !(p is Prog) { assert(nz_pos_ok(subs1, p)); }
+            if !(q is Prog) { assert(nz_pos_ok(subs1, q)); }
+        }
+    }
+    assert forall |k: Tid| #[trigger] subs2.contains_key(k) implies subs2[k].tid == k by {
+        if k != sk { assert(subs1.contains_key(k)); }
+    }
+    if nz_namespace(subs1, ext) {
+        assert forall |k: Tid, i: int, u: Tid| #[trigger] nz_blk_at(subs2, k, i, subs2[k].term.blocks@[i].tid) && #[trigger] nz_names(subs2[k].term.blocks@[i], u)
+            implies !nz_is_sub(subs2, u) && !ext.contains_key(u) && u != nz_sink_sub() by {
+            if k == sk {
+                // the sink block names nothing
+            } else {
+                assert(subs1.contains_key(k) && subs2[k] == subs1[k]);
+                assert(nz_blk_at(subs1, k, i, subs1[k].term.blocks@[i].tid));
+                if nz_is_sub(subs2, u) {
+                    let k2 = choose |k2: Tid| #[trigger] subs2.contains_key(k2) && subs2[k2].tid == u;
+                    if k2 != sk { assert(subs1.contains_key(k2) && subs1[k2].tid == u); assert(nz_is_sub(subs1, u)); }
+                }
+            }
+        }
+    }
+}
+
+/// the references pass changes no term tid: positions and their tids are the same
+pub proof fn lemma_nz_refs_unique(prog: Tid, subs2: Map<Tid, Term<Sub>>, subs3: Map<Tid, Term<Sub>>, known: Set<Tid>)
+    requires
+        nz_unique(prog, subs2),
+        nz_refs_post(subs2, subs3, known),
+    ensures
+        nz_unique(prog, subs3),
+        nz_keys_are_tids(subs2) ==> nz_keys_are_tids(subs3),
+        forall |t: Tid| nz_is_blk(subs2, t) ==> nz_is_blk(subs3, t),
+{
+    assert forall |p: NzPos| #[trigger] nz_pos_ok(subs3, p) implies nz_pos_ok(subs2, p) && nz_tid_at(prog, subs2, p) == nz_tid_at(prog, subs3, p) by {
+        if !(p is Prog) {
+            let k = nz_pos_key(p);
+            assert(subs2.contains_key(k));
+            assert(nz_refs_sub(subs2[k], subs3[k], known));
+            match p {
+                NzPos::Prog => {},
+                NzPos::Sub(k) => {},
+                NzPos::Blk(k, i) => { assert(nz_refs_blk(subs2[k].term.blocks@[i], subs3[k].term.blocks@[i], known)); },
+                NzPos::Def(k, i, d) => { assert(nz_refs_blk(subs2[k].term.blocks@[i], subs3[k].term.blocks@[i], known)); },
+                NzPos::Jmp(k, i, d) => { assert(nz_refs_blk(subs2[k].term.blocks@[i], subs3[k].term.blocks@[i], known)); },
+            }
+        }
+    }
+    if nz_keys_are_tids(subs2) {
+        assert forall |k: Tid| #[trigger] subs3.contains_key(k) implies subs3[k].tid == k by {
+            assert(subs2.contains_key(k)); assert(nz_refs_sub(subs2[k], subs3[k], known));
+        }
+    }
+    assert forall |t: Tid| nz_is_blk(subs2, t) implies nz_is_blk(subs3, t) by {
+        let (k, i) = choose |k: Tid, i: int| #[trigger] nz_blk_at(subs2, k, i, t);
+        assert(nz_refs_sub(subs2[k], subs3[k], known));
+        assert(nz_refs_blk(subs2[k].term.blocks@[i], subs3[k].term.blocks@[i], known));
+        assert(nz_blk_at(subs3, k, i, t));
+    }
+}
+
+/// what survives the filter is known and was a hint
+pub proof fn lemma_nz_keep_members(h: Seq<Tid>, known: Set<Tid>, n: int)
+    requires
+        0 <= n <= h.len(),
+    ensures
+        forall |x: int| 0 <= x < nz_keep(h, known, n).len() ==> known.contains(#[trigger] nz_keep(h, known, n)[x]),
+    decreases n
+{
+    if n > 0 {
+        lemma_nz_keep_members(h, known, n - 1);
+        let r = nz_keep(h, known, n - 1);
+        assert forall |x: int| 0 <= x < nz_keep(h, known, n).len() implies known.contains(#[trigger] nz_keep(h, known, n)[x]) by {
+            if x < r.len() {
+                assert(nz_keep(h, known, n)[x] == r[x]);
+            }
+        }
+    }
+}
+
+/// after the references pass every tid a block names is the tid of a block
+pub proof fn lemma_nz_refs_names_closed(subs2: Map<Tid, Term<Sub>>, subs3: Map<Tid, Term<Sub>>, known: Set<Tid>, ext: Map<Tid, ExternSymbol>)
+    requires
+        nz_refs_post(subs2, subs3, known),
+        nz_known_set(known, subs2, ext),
+        subs2.contains_key(nz_sink_sub()) && nz_is_sink_sub_term(subs2[nz_sink_sub()]),
+        nz_namespace(subs2, ext),
+        forall |t: Tid| nz_is_blk(subs2, t) ==> nz_is_blk(subs3, t),
+    ensures
+        nz_names_closed(subs3),
+{
+    let sinkb = nz_sink_blk(Seq::<char>::empty());
+    assert(nz_is_blk(subs2, sinkb)) by { assert(nz_blk_at(subs2, nz_sink_sub(), 0, sinkb)); }
+    assert forall |k: Tid, i: int, u: Tid| #[trigger] nz_blk_at(subs3, k, i, subs3[k].term.blocks@[i].tid) && #[trigger] nz_names(subs3[k].term.blocks@[i], u)
+        implies nz_is_blk(subs3, u) by {
+        assert(subs2.contains_key(k));
+        assert(nz_refs_sub(subs2[k], subs3[k], known));
+        let b0 = subs2[k].term.blocks@[i];
+        let b1 = subs3[k].term.blocks@[i];
+        assert(nz_refs_blk(b0, b1, known));
+        assert(nz_blk_at(subs2, k, i, subs2[k].term.blocks@[i].tid));
+        if exists |j: int| 0 <= j < b1.term.jmps@.len() && nz_intra_target((#[trigger] b1.term.jmps@[j]).term) == Some(u) {
+            let j = choose |j: int| 0 <= j < b1.term.jmps@.len() && nz_intra_target((#[trigger] b1.term.jmps@[j]).term) == Some(u);
+            assert(b1.term.jmps@[j].term == nz_retarget(b0.term.jmps@[j].term, known));
+            if u != sinkb {
+                assert(nz_intra_target(b0.term.jmps@[j].term) == Some(u));
+                assert(known.contains(u));
+                assert(nz_names(b0, u));
+                assert(nz_known(subs2, ext, u));
+                assert(nz_is_blk(subs2, u));
+            }
+        } else {
+            let h = choose |h: int| 0 <= h < b1.term.indirect_jmp_targets@.len() && #[trigger] b1.term.indirect_jmp_targets@[h] == u;
+            let h0 = b0.term.indirect_jmp_targets@;
+            lemma_nz_keep_members(h0, known, h0.len() as int);
+            lemma_nz_keep_sub(h0, known, h0.len() as int, h);
+            assert(known.contains(u));
+            assert(nz_names(b0, u));
+            assert(nz_known(subs2, ext, u));
+            assert(nz_is_blk(subs2, u));
+        }
+    }
+}
+
+/// ... and occurs among the hints
+pub proof fn lemma_nz_keep_sub(h: Seq<Tid>, known: Set<Tid>, n: int, x: int)
+    requires
+        0 <= n <= h.len(),
+        0 <= x < nz_keep(h, known, n).len(),
+    ensures
+        exists |y: int| 0 <= y < n && #[trigger] h[y] == nz_keep(h, known, n)[x],
+    decreases n
+{
+    if n > 0 {
+        let r = nz_keep(h, known, n - 1);
+        if x < r.len() {
+            lemma_nz_keep_sub(h, known, n - 1, x);
+            let y = choose |y: int| 0 <= y < n - 1 && #[trigger] h[y] == r[x];
+            assert(h[y] == nz_keep(h, known, n)[x]);
+        } else {
+            assert(h[n - 1] == nz_keep(h, known, n)[x]);
+        }
+    }
+}
+
+/// what a redirected block names is the redirection (rule nz_fix) of what the block named
+pub proof fn lemma_nz_resfx_names(b0: Term<Blk>, b1: Term<Blk>, f: Tid, home: Map<Tid, Tid>, u: Tid)
+    requires
+        nz_resfx_blk(b0, b1, f, home),
+        nz_names(b1, u),
+    ensures
+        exists |u0: Tid| #[trigger] nz_names(b0, u0) && u == nz_fix(u0, f, home),
+{
+    if exists |j: int| 0 <= j < b1.term.jmps@.len() && nz_intra_target((#[trigger] b1.term.jmps@[j]).term) == Some(u) {
+        let j = choose |j: int| 0 <= j < b1.term.jmps@.len() && nz_intra_target((#[trigger] b1.term.jmps@[j]).term) == Some(u);
+        assert(b1.term.jmps@[j].term == nz_resfx(b0.term.jmps@[j].term, f, home));
+        let w = nz_intra_target(b0.term.jmps@[j].term);
+        assert(w is Some && u == nz_fix(w->Some_0, f, home));
+        assert(nz_names(b0, w->Some_0));
+    } else {
+        let h = choose |h: int| 0 <= h < b1.term.indirect_jmp_targets@.len() && #[trigger] b1.term.indirect_jmp_targets@[h] == u;
+        assert(u == nz_fix(b0.term.indirect_jmp_targets@[h], f, home));
+        assert(nz_names(b0, b0.term.indirect_jmp_targets@[h]));
+    }
+}
+
+/// a suffixed copy names what the original names
+pub proof fn lemma_nz_clone_names(orig: Term<Blk>, b0: Term<Blk>, s: Seq<char>, u0: Tid)
+    requires
+        nz_clone_sfx(orig, b0, s),
+        nz_names(b0, u0),
+    ensures
+        nz_names(orig, u0),
+{
+    if exists |j: int| 0 <= j < b0.term.jmps@.len() && nz_intra_target((#[trigger] b0.term.jmps@[j]).term) == Some(u0) {
+        let j = choose |j: int| 0 <= j < b0.term.jmps@.len() && nz_intra_target((#[trigger] b0.term.jmps@[j]).term) == Some(u0);
+        assert(b0.term.jmps@[j].term == orig.term.jmps@[j].term);
+        assert(nz_intra_target(orig.term.jmps@[j].term) == Some(u0));
+    } else {
+        let h = choose |h: int| 0 <= h < b0.term.indirect_jmp_targets@.len() && #[trigger] b0.term.indirect_jmp_targets@[h] == u0;
+        assert(orig.term.indirect_jmp_targets@[h] == u0);
+    }
+}
+
+/// block number `i` of the function after the pass stands for a block tid contained in the function, and names what that block names (redirected)
+pub proof fn lemma_nz_uniq_block_origin(prog: Tid, subs3: Map<Tid, Term<Sub>>, k: Tid, l0: Seq<Term<Blk>>, add: Seq<Term<Blk>>, src: Seq<Tid>,
+                                        set: Set<Tid>, home: Map<Tid, Tid>, bm: Map<Tid, &Term<Blk>>, i: int, u0: Tid)
+    requires
+        nz_unique(prog, subs3),
+        subs3.contains_key(k),
+        nz_blkmap_ok(bm, subs3),
+        nz_contained_ok(set, subs3[k], bm),
+        nz_additional(add, src, set, subs3[k].tid, home, bm),
+        l0 == subs3[k].term.blocks@ + add,
+        0 <= i < l0.len(),
+        nz_names(l0[i], u0),
+    ensures
+        set.contains(u0),
+{
+    let s3 = subs3[k];
+    let f = s3.tid;
+    let n0 = s3.term.blocks@.len() as int;
+    if i < n0 {
+        let t = s3.term.blocks@[i].tid;
+        assert(l0[i] == s3.term.blocks@[i]);
+        assert(nz_blk_at(subs3, k, i, subs3[k].term.blocks@[i].tid));
+        assert(set.contains(t) && bm.contains_key(t));
+        let (k2, i2) = choose |k2: Tid, i2: int| #[trigger] nz_blk_at(subs3, k2, i2, t) && *bm[t] == subs3[k2].term.blocks@[i2];
+        assert(nz_pos_ok(subs3, NzPos::Blk(k2, i2)) && nz_pos_ok(subs3, NzPos::Blk(k, i)));
+        assert(nz_tid_at(prog, subs3, NzPos::Blk(k2, i2)) == nz_tid_at(prog, subs3, NzPos::Blk(k, i)));
+        assert(*bm[t] == l0[i]);
+        assert(nz_names(*bm[t], u0));
+    } else {
+        let t = src[i - n0];
+        assert(l0[i] == add[i - n0]);
+        assert(set.contains(t) && bm.contains_key(t) && nz_clone_sfx(*bm[t], add[i - n0], nz_sfx(f)));
+        lemma_nz_clone_names(*bm[t], add[i - n0], nz_sfx(f), u0);
+        assert(nz_names(*bm[t], u0));
+    }
+}
+
+/// a tid contained in the function, redirected: the tid of a block of the function after the pass
+pub proof fn lemma_nz_uniq_target(prog: Tid, subs3: Map<Tid, Term<Sub>>, k: Tid, l0: Seq<Term<Blk>>, l1: Seq<Term<Blk>>, add: Seq<Term<Blk>>, src: Seq<Tid>,
+                                  set: Set<Tid>, home: Map<Tid, Tid>, bm: Map<Tid, &Term<Blk>>, u0: Tid)
+    requires
+        nz_unique(prog, subs3),
+        nz_names_closed(subs3),
+        subs3.contains_key(k),
+        nz_home_ok(home, prog, subs3),
+        nz_blkmap_ok(bm, subs3),
+        nz_contained_ok(set, subs3[k], bm),
+        nz_additional(add, src, set, subs3[k].tid, home, bm),
+        l0 == subs3[k].term.blocks@ + add,
+        nz_resfx_blks(l0, l1, subs3[k].tid, home),
+        set.contains(u0),
+    ensures
+        exists |i2: int| 0 <= i2 < l1.len() && (#[trigger] l1[i2]).tid == nz_fix(u0, subs3[k].tid, home),
+{
+    let s3 = subs3[k];
+    let f = s3.tid;
+    let n0 = s3.term.blocks@.len() as int;
+    lemma_nz_unique_subs_distinct(prog, subs3);
+    lemma_nz_contained_blocks(subs3, bm, k, set);
+    assert(nz_is_blk(subs3, u0));
+    if nz_home_is(home, u0, f) {
+        let (k2, i2) = choose |k2: Tid, i2: int| #[trigger] nz_blk_at(subs3, k2, i2, u0);
+        assert(nz_pos_ok(subs3, NzPos::Blk(k2, i2)));
+        assert(home[nz_tid_at(prog, subs3, NzPos::Blk(k2, i2))] == subs3[nz_pos_key(NzPos::Blk(k2, i2))].tid);
+        assert(subs3[k2].tid == f);
+        assert(k2 == k);
+        assert(l0[i2] == s3.term.blocks@[i2]);
+        assert(nz_resfx_blk(l0[i2], l1[i2], f, home));
+        assert(l1[i2].tid == nz_fix(u0, f, home));
+    } else {
+        assert(nz_in(src, u0));
+        let x = choose |x: int| 0 <= x < src.len() && #[trigger] src[x] == u0;
+        assert(nz_clone_sfx(*bm[src[x]], add[x], nz_sfx(f)));
+        assert(l0[n0 + x] == add[x]);
+        assert(nz_resfx_blk(l0[n0 + x], l1[n0 + x], f, home));
+        assert(l1[n0 + x].tid == nz_fix(u0, f, home));
+    }
+}
+
+/// PROPERTY CLAUSE after make_block_to_sub_mapping_unique: what a block names is a block of the same function
+pub proof fn lemma_nz_uniq_intra(prog: Tid, subs3: Map<Tid, Term<Sub>>, subs4: Map<Tid, Term<Sub>>)
+    requires
+        nz_unique(prog, subs3),
+        nz_names_closed(subs3),
+        nz_uniq_post(prog, subs3, subs4),
+    ensures
+        nz_intra_ok(subs4),
+{
+    hide(nz_unique); hide(nz_names_closed); hide(nz_home_ok); hide(nz_blkmap_ok); hide(nz_contained_ok); hide(nz_additional); hide(nz_names); hide(nz_fix); hide(nz_resfx_blk);
+    let (home, bm, sm) = choose |home: Map<Tid, Tid>, bm: Map<Tid, &Term<Blk>>, sm: Map<Tid, HashSet<Tid>>|
+        nz_home_ok(home, prog, subs3) && nz_blkmap_ok(bm, subs3) && nz_submap_ok(sm, subs3, bm) && #[trigger] nz_uniq_shape(subs3, subs4, home, bm, sm);
+    assert forall |k: Tid, i: int, u: Tid| #[trigger] nz_blk_at(subs4, k, i, subs4[k].term.blocks@[i].tid) && #[trigger] nz_names(subs4[k].term.blocks@[i], u)
+        implies exists |i2: int| #[trigger] nz_blk_at(subs4, k, i2, u) by {
+        assert(subs3.contains_key(k));
+        let s3 = subs3[k];
+        let s4 = subs4[k];
+        let f = s3.tid;
+        let set = sm[f]@;
+        assert(nz_uniq_sub(s3, s4, set, home, bm));
+        assert(nz_contained_ok(set, s3, bm));
+        let add = choose |add: Seq<Term<Blk>>| #[trigger] nz_additional_ok(add, set, f, home, bm) && nz_resfx_blks(s3.term.blocks@ + add, s4.term.blocks@, f, home);
+        let src = choose |src: Seq<Tid>| #[trigger] nz_additional(add, src, set, f, home, bm);
+        let l0 = s3.term.blocks@ + add;
+        assert(nz_resfx_blks(l0, s4.term.blocks@, f, home));
+        assert(nz_resfx_blk(l0[i], s4.term.blocks@[i], f, home));
+        lemma_nz_resfx_names(l0[i], s4.term.blocks@[i], f, home, u);
+        let u0 = choose |u0: Tid| #[trigger] nz_names(l0[i], u0) && u == nz_fix(u0, f, home);
+        lemma_nz_uniq_block_origin(prog, subs3, k, l0, add, src, set, home, bm, i, u0);
+        lemma_nz_uniq_target(prog, subs3, k, l0, s4.term.blocks@, add, src, set, home, bm, u0);
+        let i2 = choose |i2: int| 0 <= i2 < s4.term.blocks@.len() && (#[trigger] s4.term.blocks@[i2]).tid == nz_fix(u0, f, home);
+        assert(nz_blk_at(subs4, k, i2, u));
+    }
+}
+
+/// the last pass keeps "what a block names is a block of the same function" up to the name of the artificial sink block
+pub proof fn lemma_nz_noret_intra(subs4: Map<Tid, Term<Sub>>, subs5: Map<Tid, Term<Sub>>, ext: Map<Tid, ExternSymbol>, nr: Set<Tid>)
+    requires
+        nz_intra_ok(subs4),
+        nz_noret_post(subs4, subs5, ext, nr),
+    ensures
+        nz_intra_ok_mod_sink(subs5),
+{
+    broadcast use axiom_nz_sink_blk_is;
+    assert forall |k: Tid, i: int, u: Tid| #[trigger] nz_blk_at(subs5, k, i, subs5[k].term.blocks@[i].tid) && #[trigger] nz_names(subs5[k].term.blocks@[i], u)
+        implies (exists |i2: int| #[trigger] nz_blk_at(subs5, k, i2, u))
+            || (u == nz_sink_blk(nz_sfx(subs5[k].tid)) && nz_has_sink(subs5[k].term.blocks@, nz_sfx(subs5[k].tid))) by {
+        assert(subs4.contains_key(k));
+        let s4 = subs4[k];
+        let s5 = subs5[k];
+        if s4.tid == nz_sink_sub() {
+            assert(s5 == s4);
+            assert(nz_blk_at(subs4, k, i, subs4[k].term.blocks@[i].tid));
+            let i2 = choose |i2: int| #[trigger] nz_blk_at(subs4, k, i2, u);
+            assert(nz_blk_at(subs5, k, i2, u));
+        } else {
+            assert(nz_noret_sub(s4, s5, ext, nr));
+            let f = s4.tid;
+            let n0 = s4.term.blocks@.len() as int;
+            let sink = nz_sink_blk(nz_sfx(f));
+            if i >= n0 {
+                // the appended sink block names nothing
+                assert(nz_is_sink_block_term(s5.term.blocks@[n0], nz_sfx(f)));
+            } else {
+                let b0 = s4.term.blocks@[i];
+                let b1 = s5.term.blocks@[i];
+                assert(nz_noret_blk(b0, b1, f, ext, nr));
+                assert(nz_blk_at(subs4, k, i, subs4[k].term.blocks@[i].tid));
+                if nz_names(b0, u) {
+                    let i2 = choose |i2: int| #[trigger] nz_blk_at(subs4, k, i2, u);
+                    assert(nz_noret_blk(s4.term.blocks@[i2], s5.term.blocks@[i2], f, ext, nr));
+                    assert(nz_blk_at(subs5, k, i2, u));
+                } else {
+                    // a retargeted return: u is the sink name, and some jump was changed
+                    let j = choose |j: int| 0 <= j < b1.term.jmps@.len() && nz_intra_target((#[trigger] b1.term.jmps@[j]).term) == Some(u);
+                    assert(b1.term.jmps@[j].term == nz_noret(b0.term.jmps@[j].term, f, ext, nr));
+                    if nz_noret(b0.term.jmps@[j].term, f, ext, nr) == b0.term.jmps@[j].term {
+                        assert(nz_intra_target(b0.term.jmps@[j].term) == Some(u));
+                        assert(nz_names(b0, u));
+                    }
+                    assert(u == sink);
+                    assert(nz_noret_changed(s4.term.blocks@, f, ext, nr, n0, 0));
+                    if nz_has_sink(s4.term.blocks@, nz_sfx(f)) {
+                        let x = choose |x: int| 0 <= x < s4.term.blocks@.len() && nz_is_sink_blk((#[trigger] s4.term.blocks@[x]).tid, nz_sfx(f));
+                        assert(nz_noret_blk(s4.term.blocks@[x], s5.term.blocks@[x], f, ext, nr));
+                        assert(nz_is_sink_blk(s5.term.blocks@[x].tid, nz_sfx(f)));
+                    } else {
+                        assert(nz_is_sink_block_term(s5.term.blocks@[n0], nz_sfx(f)));
+                        assert(nz_blk_at(subs5, k, n0, u));
+                    }
+                }
+            }
+        }
+    }
+}
+
+/// PROPERTY CLAUSE "calls to non-returning functions return to the caller's artificial sink" after the last pass
+pub proof fn lemma_nz_noret_ok(subs4: Map<Tid, Term<Sub>>, subs5: Map<Tid, Term<Sub>>, ext: Map<Tid, ExternSymbol>, nr: Set<Tid>)
+    requires
+        nz_nonret_set(nr, subs4),
+        nz_noret_post(subs4, subs5, ext, nr),
+    ensures
+        nz_noret_ok(subs5, ext),
+{
+    broadcast use axiom_nz_sink_blk_is;
+    // a function without return instruction after the pass had none before
+    assert forall |t: Tid| nz_nonret(subs5, t) implies nr.contains(t) by {
+        let k = choose |k: Tid| #[trigger] subs5.contains_key(k) && subs5[k].tid == t && !nz_blocks_return(subs5[k].term.blocks@) && t != nz_sink_sub();
+        assert(subs4.contains_key(k));
+        assert(nz_noret_sub(subs4[k], subs5[k], ext, nr));
+        if nz_blocks_return(subs4[k].term.blocks@) {
+            let i = choose |i: int| 0 <= i < subs4[k].term.blocks@.len() && nz_jmps_return((#[trigger] subs4[k].term.blocks@[i]).term.jmps@);
+            let j = choose |j: int| 0 <= j < subs4[k].term.blocks@[i].term.jmps@.len() && (#[trigger] subs4[k].term.blocks@[i].term.jmps@[j]).term is Return;
+            assert(nz_noret_blk(subs4[k].term.blocks@[i], subs5[k].term.blocks@[i], subs4[k].tid, ext, nr));
+            assert(subs5[k].term.blocks@[i].term.jmps@[j].term is Return);
+            assert(nz_jmps_return(subs5[k].term.blocks@[i].term.jmps@));
+            assert(nz_blocks_return(subs5[k].term.blocks@));
+        }
+        assert(nz_nonret(subs4, t));
+    }
+    assert forall |k: Tid, i: int, j: int| #[trigger] nz_pos_ok(subs5, NzPos::Jmp(k, i, j)) && subs5[k].tid != nz_sink_sub() implies
+        match subs5[k].term.blocks@[i].term.jmps@[j].term {
+            Jmp::Call { target, return_: Some(r) } =>
+                ((ext.contains_key(target) && ext[target].no_return) || (!ext.contains_key(target) && nz_nonret(subs5, target)))
+                    ==> nz_is_sink_blk(r, nz_sfx(subs5[k].tid)),
+            _ => true,
+        } by {
+        assert(subs4.contains_key(k));
+        assert(nz_noret_sub(subs4[k], subs5[k], ext, nr));
+        let n0 = subs4[k].term.blocks@.len() as int;
+        if i < n0 {
+            assert(nz_noret_blk(subs4[k].term.blocks@[i], subs5[k].term.blocks@[i], subs4[k].tid, ext, nr));
+            assert(subs5[k].term.blocks@[i].term.jmps@[j].term == nz_noret(subs4[k].term.blocks@[i].term.jmps@[j].term, subs4[k].tid, ext, nr));
+        } else {
+            assert(nz_is_sink_block_term(subs5[k].term.blocks@[n0], nz_sfx(subs4[k].tid)));
+        }
+    }
+}
+
+/// the first block of the function under `k` has the tid `t`
+pub open spec fn nz_first(subs: Map<Tid, Term<Sub>>, k: Tid, t: Tid) -> bool {
+    subs.contains_key(k) && subs[k].term.blocks@.len() > 0 && subs[k].term.blocks@[0].tid == t
+}
+
+pub proof fn lemma_nz_first_refs(s2: Map<Tid, Term<Sub>>, s3: Map<Tid, Term<Sub>>, known: Set<Tid>, k: Tid, t: Tid)
+    requires nz_refs_post(s2, s3, known), nz_first(s2, k, t),
+    ensures nz_first(s3, k, t),
+{
+    assert(nz_refs_sub(s2[k], s3[k], known));
+    assert(nz_refs_blk(s2[k].term.blocks@[0], s3[k].term.blocks@[0], known));
+}
+
+pub proof fn lemma_nz_first_uniq(prog: Tid, s3: Map<Tid, Term<Sub>>, s4: Map<Tid, Term<Sub>>, k: Tid, t: Tid)
+    requires nz_uniq_post(prog, s3, s4), nz_first(s3, k, t),
+    ensures nz_first(s4, k, t),
+{
+    hide(nz_home_ok); hide(nz_blkmap_ok); hide(nz_submap_ok); hide(nz_additional_ok);
+    let (home, bm, sm) = choose |home: Map<Tid, Tid>, bm: Map<Tid, &Term<Blk>>, sm: Map<Tid, HashSet<Tid>>|
+        nz_home_ok(home, prog, s3) && nz_blkmap_ok(bm, s3) && nz_submap_ok(sm, s3, bm) && #[trigger] nz_uniq_shape(s3, s4, home, bm, sm);
+    assert(nz_uniq_sub(s3[k], s4[k], sm[s3[k].tid]@, home, bm));
+    let add = choose |add: Seq<Term<Blk>>| #[trigger] nz_additional_ok(add, sm[s3[k].tid]@, s3[k].tid, home, bm) && nz_resfx_blks(s3[k].term.blocks@ + add, s4[k].term.blocks@, s3[k].tid, home);
+    assert((s3[k].term.blocks@ + add)[0] == s3[k].term.blocks@[0]);
+    assert(nz_resfx_blk((s3[k].term.blocks@ + add)[0], s4[k].term.blocks@[0], s3[k].tid, home));
+}
+
+pub proof fn lemma_nz_first_noret(s4: Map<Tid, Term<Sub>>, s5: Map<Tid, Term<Sub>>, ext: Map<Tid, ExternSymbol>, nr: Set<Tid>, k: Tid, t: Tid)
+    requires nz_noret_post(s4, s5, ext, nr), nz_first(s4, k, t),
+    ensures nz_first(s5, k, t),
+{
+    if s4[k].tid == nz_sink_sub() {
+        assert(s5[k] == s4[k]);
+    } else {
+        assert(nz_noret_sub(s4[k], s5[k], ext, nr));
+        assert(nz_noret_blk(s4[k].term.blocks@[0], s5[k].term.blocks@[0], s4[k].tid, ext, nr));
+    }
+}
+
+/// PROPERTY CLAUSE "every function still starts with its original entry block" through the five passes
+pub proof fn lemma_nz_chain_entries(prog: Tid, s0: Map<Tid, Term<Sub>>, ext: Map<Tid, ExternSymbol>, s1: Map<Tid, Term<Sub>>, s2: Map<Tid, Term<Sub>>,
+                                    s3: Map<Tid, Term<Sub>>, s4: Map<Tid, Term<Sub>>, s5: Map<Tid, Term<Sub>>, known: Set<Tid>, nr: Set<Tid>)
+    requires
+        nz_chain(prog, s0, ext, s1, s2, s3, s4, s5, known, nr),
+        nz_keys_are_tids(s0),
+        nz_no_sink_names(prog, s0),
+    ensures
+        nz_entries_kept(prog, s0, s5),
+{
+    hide(nz_unique); hide(nz_names_closed); hide(nz_known_set); hide(nz_nonret_set); hide(nz_uniq_post); hide(nz_noret_post); hide(nz_refs_post);
+    assert forall |k: Tid| #[trigger] s0.contains_key(k) && nz_alone(prog, s0, NzPos::Blk(k, 0)) implies
+        s5.contains_key(k) && s5[k].term.blocks@.len() > 0 && s5[k].term.blocks@[0].tid == s0[k].term.blocks@[0].tid by {
+        let t = s0[k].term.blocks@[0].tid;
+        assert(s1.contains_key(k) && s1[k].term.blocks@.len() > 0 && nz_dedup_blk(s0[k].term.blocks@[0], s1[k].term.blocks@[0]));
+        assert(nz_pos_ok(s0, NzPos::Sub(k)));
+        assert(nz_tid_at(prog, s0, NzPos::Sub(k)) == k);
+        assert(k != nz_sink_sub());
+        assert(s2.contains_key(k) && s2[k] == s1[k]);
+        assert(nz_first(s2, k, t));
+        lemma_nz_first_refs(s2, s3, known, k, t);
+        lemma_nz_first_uniq(prog, s3, s4, k, t);
+        lemma_nz_first_noret(s4, s5, ext, nr, k, t);
+    }
+}
